@@ -3,7 +3,7 @@ from vlib import repairflow as rf
 from vlib.props import c08
 
 RULE = ("Flow A: on the repair machine TLC checks the action property ScanAdvances (loc strictly increases), TickBound (at most n "
-        "scan iterations) and LookupBound for every A/C/G/T string of length k..5 (7) on generated order-1/2 graphs, every start, "
+        "scan iterations) and LookupBound for every A/C/G/T string of length k..5 (6) on generated order-1/2 graphs, every start, "
         "checks, indel on/off, heap limits - every position of every error, including the first nucleotide and the last window; "
         "repair_dna is run on every exported case under a scan-tick budget of n taken from the specification (exceeding it is the "
         "verdict), must return a well-formed (candidates, statistics) pair, raise nothing, and stay inside the look-up bound. "
